@@ -793,6 +793,12 @@ def replay_finding(impl_dir, f):
 def run(rep):
     seed, tier = rep.seed, rep.tier
     quick = tier == "quick"
+    import time as _time
+    phase, _t = {}, [_time.time()]
+
+    def mark(name):
+        phase[name] = round(_time.time() - _t[0], 1)
+        _t[0] = _time.time()
     # (0) re-extract the ladder table from the current C++ text
     gen = os.path.join(common.COQ, PROP, "Gen_LadderTable.v")
     with common.Lock("c02-gen"):
@@ -807,8 +813,10 @@ def run(rep):
     cq = common.coq_check_props(PROP)
     common.proof_coverage(rep, cq)
     proof_broken = not cq["ok"]
+    mark("coq")
     common.ensure_model(PROP)
     impl = common.build_impl("plain")
+    mark("builds")
 
     violations = []      # (kind, tree-or-text, detail)
     hist = {}
@@ -842,7 +850,7 @@ def run(rep):
     if os.path.exists(corpus):
         for c in json.load(open(corpus)):
             if "tree" in c:
-                trees.append(c["tree"]); origin.append("corpus")
+                trees.append(unsx(c["tree"])); origin.append("corpus")
             elif "text" in c:
                 corpus_texts.append(c["text"])
     a_, b_, c_ = ("V", "a"), ("V", "b"), ("V", "c")
@@ -920,6 +928,7 @@ def run(rep):
         rep.violation("model-roundtrip", {"tree": sx(t), "text": text, "model": p_},
                       "extracted model contradicts roundtrip_general on a safe well-formed tree (model/extraction defect)", True)
 
+    mark("ast-trees")
     # ---------------- (2b) the real lexer: the same token sequence written compactly (a+b*c) must give the
     # same AST as the blank-separated text the model is compared on
     sel = [k for k in range(len(texts)) if mt[k]["nogtlp"] and im[k] is not None and not str(im[k]).startswith(("ERR", "CRASH"))]
@@ -936,6 +945,7 @@ def run(rep):
     if ctexts:
         samples.append({"origin": "compact-spelling", "text": ctexts[len(ctexts) // 2], "same_ast_as": texts[sel[len(ctexts) // 2]]})
 
+    mark("compact")
     # ---------------- (3) malformed token streams (one program each)
     n_mal = 2500 if quick else 25000
     base = [m["text"] for m, o in zip(mt, origin) if o.startswith("random")]
@@ -971,6 +981,7 @@ def run(rep):
     if mtexts:
         samples.append({"origin": "malformed", "text": mtexts[len(mtexts) // 2], "model": mmp[len(mtexts) // 2], "impl": mim[len(mtexts) // 2]})
 
+    mark("malformed")
     # ---------------- (4) metamorphic evaluation: println(e) vs println(full(e)), operands from the model
     ev_cases, ev_meta = [], []
     a_, b_, c_ = ("V", "a"), ("V", "b"), ("V", "c")
@@ -1109,6 +1120,7 @@ def run(rep):
     if eff_run:
         samples.append({"origin": "side-effects", "values": dict(zip(VARS, eff_run[0][0])), "statements": eff_run[0][1]})
 
+    mark("evaluation")
     # ---------------- (5) disagreements: shrink, property oracle, report
     rep.coverage["disagreements"] = len(violations)
     violations.sort(key=lambda v: (v[0] != "tree", len(str(v[1]))))
@@ -1163,6 +1175,8 @@ def run(rep):
         else:
             rep.notes.append("known finding %s no longer reproduces (fixed?): %s" % (f["id"], obs))
 
+    mark("report+known")
+    rep.coverage["phase_seconds"] = phase
     rep.coverage.update({
         "evaluations": n_eval, "distinct_nontrivial": len(nontrivial),
         "rule": "every case = one expression text given to the real parser (CB_VERIF_DUMP_AST) and to the extracted model, or one "
